@@ -395,6 +395,17 @@ func sliceAliasObs(w *World, fi *FuncInfo) []*OwnOb {
 			if v := root(y.Value); v != nil {
 				add(exprString(y.Key), v, y.Pos())
 			}
+		case *ast.CallExpr:
+			// library functions that rewrite their slice argument in place
+			switch exprString(y.Fun) {
+			case "slices.DeleteFunc", "slices.Delete", "slices.Insert", "slices.Replace", "slices.Sort", "slices.SortFunc", "slices.SortStableFunc",
+				"slices.Reverse", "slices.Compact", "slices.CompactFunc", "sort.Slice", "sort.SliceStable", "sort.Strings", "clear", "copy":
+				if len(y.Args) > 0 {
+					if v := root(y.Args[0]); v != nil {
+						add(exprString(y.Fun), v, y.Pos())
+					}
+				}
+			}
 		case *ast.ReturnStmt:
 			for _, r := range y.Results {
 				if c, ok := r.(*ast.CallExpr); ok {
@@ -1317,6 +1328,16 @@ func ownPass(w *World, id string) []*OwnOb {
 	var fis []*FuncInfo
 	out = append(out, effectsPass(w, id)...)
 	if id == "C08" {
+		// the sweep: a slice parameter rewritten in place or kept (shared backing array) corrupts the caller's list - later
+		// elements become nil or stale, which ends in a nil dereference or a wrong result far from the cause
+		var all []*FuncInfo
+		for _, fi := range w.Funcs {
+			all = append(all, fi)
+		}
+		sort.Slice(all, func(i, j int) bool { return all[i].Key < all[j].Key })
+		for _, fi := range all {
+			out = append(out, sliceAliasObs(w, fi)...)
+		}
 		return out
 	}
 	fis = cone(w, id)
